@@ -24,7 +24,7 @@ for d in sorted(glob.glob('/verif/seeded/*/')):
         continue
     mp = d + 'meta.json'
     m = json.load(open(mp))
-    if not m['confirmation'].get('confirmed'):
+    if not m['confirmation'].get('confirmed') or m.get('classification') == 'outside-statement':
         continue
     assert sh(["git", "-C", REPO, "status", "--porcelain"])[1].strip() == "", "repo dirty"
     rc, out = sh(["git", "apply", d + "patch.diff"], cwd=REPO)
